@@ -691,6 +691,8 @@ class Session:
         self._raised = None           # the exception on its way out of the enclosing blocks
         self._last_exc = None
         self._step = 0
+        self.dtype_strict = True      # the from-scratch oracle compares dtypes too (False: same numbers in another dtype are only counted)
+        self.dtype_only_diffs = 0
         self.alias_sets = 0           # assignments of a tensor object (or a view of one) that another independent variable holds
         self.alias_puts = {}          # (indexed|full, mode) -> puts executed on a variable that shared storage with another one
         self.alias_effects = []       # an independent value that changed although the operation did not assign it
@@ -1035,6 +1037,12 @@ class Session:
             a = self.read(probe, name)
             b = self.read(fresh, name)
             same = (a[0] == b[0]) and (same_tensor(a[1], b[1]) if a[0] == "ok" else a[1] == b[1])
+            if not same and not self.dtype_strict and a[0] == b[0] == "ok" and not hasattr(a[1], "weighted_value") and not hasattr(b[1], "weighted_value") \
+                    and a[1].shape == b[1].shape and a[1].dtype != b[1].dtype and same_tensor(a[1].double(), b[1].double()):
+                # mixed-dtype histories: same numbers, another dtype (torch's promotion with 0-d operands is not associative, so the dtype of a
+                # value selected between two sides and of its from-scratch evaluation may differ on any tree): counted, not judged
+                self.dtype_only_diffs += 1
+                same = True
             if not same:
                 self.mismatches.append(dict(step=step, state=j, node=name, taint=sorted(self.taint[j] | ({"alias-effect"} if prescribed else set())),
                                             expected=val_json(b[1]) if b[0] == "ok" else b[1],
